@@ -37,6 +37,18 @@ MaddS(x, y, z)    == x * y + z                                \* rkmath.h madd -
                                                               \* types pass through float, so madd is decided only while x * y and
                                                               \* x * y + z are exactly representable floats (VecAlgebraGen: window "f")
 ClampS(x, lo, hi) == MaxS(MinS(x, hi), lo)                    \* rkmath.h clamp: max(min(x, upper), lower)
+\* compound assignment x op= s where s has ANOTHER arithmetic type than x: C++ evaluates  x = T(R(x) op R(s))  with
+\* R = the usual arithmetic conversion type of the two (UAC below) - the SCALAR IS NOT CONVERTED TO T FIRST.  For an integer x
+\* and a floating-point s = p / q (q > 0; p, q small, q a power of two, so every intermediate value is exact) the result
+\* is the exact rational truncated towards zero (float -> integer conversion):
+CAddQS(x, p, q) == DivS(x * q + p, q)                         \* x += p/q
+CSubQS(x, p, q) == DivS(x * q - p, q)                         \* x -= p/q
+CMulQS(x, p, q) == DivS(x * p, q)                             \* x *= p/q
+CDivQS(x, p, q) == DivS(x * q, p)                             \* x /= p/q   (p # 0)
+\* for an integer x of a narrow type and an integer s of a wider type the operation is carried out in the wider type
+\* (AddS .. ModS on the exact integers) and only the result is converted back.
+\* The other reading - convert the scalar to T first, then operate in T - is what the specification excludes:
+TruncQ(p, q)    == DivS(p, q)                                 \* T(p/q) for an integer type T
 
 \* ---------------------------------------------------------------------------
 \* tuples
@@ -78,6 +90,11 @@ SV(op(_, _), s, b) == op(Splat(s, Len(b)), b)                 \* scalar op vec
 \* exact quotient (floating-point element types): defined when every component divides
 Divisible(a, b) == \A i \in DOMAIN a : b[i] # 0 /\ ModS(a[i], b[i]) = 0
 \* ternary
+\* compound assignment with a fractional scalar / vector of fractions (numerators p, common denominator q)
+CAddQ(a, p, q) == [i \in DOMAIN a |-> CAddQS(a[i], p[i], q)]
+CSubQ(a, p, q) == [i \in DOMAIN a |-> CSubQS(a[i], p[i], q)]
+CMulQ(a, p, q) == [i \in DOMAIN a |-> CMulQS(a[i], p[i], q)]
+CDivQ(a, p, q) == [i \in DOMAIN a |-> CDivQS(a[i], p[i], q)]
 Madd(a, b, c)  == Lift3(MaddS, a, b, c)                       \* madd (3-vectors)
 Clamp(x, l, h) == Lift3(ClampS, x, l, h)                      \* clamp(vec, vec, vec) through min / max
 InterpolateUV(f, a, b, c) == [i \in DOMAIN a |-> f[1] * a[i] + f[2] * b[i] + f[3] * c[i]]     \* f.x * a + f.y * b + f.z * c
@@ -176,6 +193,14 @@ LawDivRoundUp(x, y) == (x > 0 /\ y > 0) =>
    LET q == DivRoundUpS(x, y) IN q * y >= x /\ (q - 1) * y < x
 LawClampS(x, lo, hi) == lo <= hi =>
    LET r == ClampS(x, lo, hi) IN lo <= r /\ r <= hi /\ ((lo <= x /\ x <= hi) => r = x) /\ (x < lo => r = lo) /\ (x > hi => r = hi)
+\* truncation towards zero of the exact rational: r = trunc(n / q)  <=>  |r * q| <= |n|, |n - r * q| < q, same sign
+LawTruncQ(n, q) == q > 0 => LET r == DivS(n, q) IN AbsS(n - r * q) < q /\ AbsS(r * q) <= AbsS(n) /\ (r = 0 \/ SgnS(r) = SgnS(n))
+LawCompoundQ(x, p, q) == q > 0 =>
+   /\ LawTruncQ(x * q + p, q) /\ LawTruncQ(x * q - p, q) /\ LawTruncQ(x * p, q)
+   /\ CAddQS(x, p * q, q) = x + p /\ CSubQS(x, p * q, q) = x - p /\ CMulQS(x, p * q, q) = x * p          \* integral scalars: the plain operators
+   /\ (p # 0 => CDivQS(x, p * q, q) = DivS(x, p))
+   /\ CSubQS(x, p, q) = CAddQS(x, -p, q)
+   /\ CAddQS(-x, -p, q) = -CAddQS(x, p, q) /\ CMulQS(-x, p, q) = -CMulQS(x, p, q)                          \* truncation is odd
 \* narrowing is a ring homomorphism: results of chains of + - * may be reduced once at the end
 LawNarrow(ty, x, y) ==
    /\ InRange(ty, Narrow(ty, x))
